@@ -796,6 +796,76 @@ func c18ready(c *Ctx, fn *ssa.Function, readyMap ssa.Value, states []string, ear
 		R.Check("C18.restart-gate", R.Key("C18.restart-gate", shortFn(fn), "mapupdate:ready"), c.rel(p.Pos(mu.Pos())), "a node is ready only if it is DONE/CANCELED/DEAD and every child is ready (recursively: no descendant is still running)", len(bad) == 0, strings.Join(bad, "; "))
 	})
 	R.Floor("C18.restart-gate.ready", n, 1)
+	// the bottom-up scan keeps going towards the root after EVERY decision, restartable or not: a
+	// parent that is reached through one child waits ("push back and retry") until all its
+	// children have been decided; if an undecided child's subtree stops propagating because it
+	// is not restartable, that wait never ends and the scan — which holds the supervisor's lock —
+	// never returns
+	np := 0
+	eachInstr(fn, func(i ssa.Instruction) {
+		mu, ok := i.(*ssa.MapUpdate)
+		if !ok || readyMap == nil || mu.Map != readyMap {
+			return
+		}
+		var loop *facts.Loop
+		for _, l := range loops {
+			l := l
+			if l.Body()[mu.Block()] && (loop == nil || loop.Body()[l.Header]) {
+				loop = &l
+			}
+		}
+		if loop == nil {
+			return
+		}
+		np++
+		skip, _ := edgesWhere(fn, func(a string) bool {
+			return strings.HasSuffix(a, ".parent == nil") || strings.HasPrefix(a, "map:") && strings.Contains(a, ".parent)]") && !strings.HasPrefix(a, "!")
+		})
+		cuts := facts.Cuts{}
+		for _, e := range skip {
+			cuts[e] = true
+		}
+		for _, lt := range loop.Latches {
+			for k, sc := range lt.Succs {
+				if sc == loop.Header && lt != mu.Block() {
+					_ = k
+				}
+			}
+		}
+		isUp := func(j ssa.Instruction) bool {
+			cl, ok := j.(*ssa.Call)
+			if !ok {
+				return false
+			}
+			b, isB := cl.Call.Value.(*ssa.Builtin)
+			if !isB || b.Name() != "append" || len(cl.Call.Args) != 2 {
+				return false
+			}
+			return strings.Contains(facts.Term(cl.Call.Args[1]), ".parent")
+		}
+		okAll := true
+		for _, lt := range loop.Latches {
+			// only latches reachable from the decision
+			if !mu.Block().Dominates(lt) && mu.Block() != lt {
+				continue
+			}
+			// a back edge that is itself one of the permitted skips needs no enqueue
+			viaSkipOnly := true
+			for k, sc := range lt.Succs {
+				if sc == loop.Header && !cuts[facts.Edge{B: lt.Index, K: k}] {
+					viaSkipOnly = false
+				}
+			}
+			if viaSkipOnly {
+				continue
+			}
+			if !facts.BeforeFrom(mu.Block(), lt.Instrs[len(lt.Instrs)-1], cuts, isUp) {
+				okAll = false
+			}
+		}
+		R.Check("C18.restart-gate", R.Key("C18.restart-gate", shortFn(fn), "propagates-upward"), c.rel(p.Pos(mu.Pos())), "after a node's readiness is decided its parent is enqueued unless there is none or it is already decided — whatever the decision was", okAll, "a path from the decision to the next iteration skips the parent for another reason (e.g. because the node is not ready): a parent waiting for this child's decision is retried forever")
+	})
+	R.Floor("C18.restart-gate.propagation", np, 1)
 }
 
 // c18statePred: fn returns a bool that is true only when a value derived from its receiver equals
